@@ -36,6 +36,7 @@ fn dispatch(line: &str) -> String {
             r
         }
         "storm" => server::storm_line(&toks),
+        "abort" => server::abort_line(&toks),
         "multi" => multi::multi_line(&toks),
         _ => "bad-op".to_string(),
     }
